@@ -757,7 +757,11 @@ struct ListenerState {
 
 pub struct Net {
     listeners: BTreeMap<String, Arc<Mutex<ListenerState>>>,
-    pub files: BTreeSet<PathBuf>,
+    /// socket files: path -> inode of the listening socket that created it. A path can be
+    /// unlinked while its listener lives on (unreachable), and a stale file can outlive its
+    /// listener (connect is refused) -- as on Unix
+    pub files: BTreeMap<PathBuf, u64>,
+    next_inode: u64,
     next_port: u16,
     next_client_port: u16,
     pub conns: Vec<Arc<Conn>>,
@@ -773,7 +777,8 @@ impl Net {
     pub fn new() -> Net {
         Net {
             listeners: BTreeMap::new(),
-            files: BTreeSet::new(),
+            files: BTreeMap::new(),
+            next_inode: 1,
             next_port: 40000,
             next_client_port: 50000,
             conns: Vec::new(),
@@ -785,7 +790,18 @@ impl Net {
         }
     }
     pub fn listening(&self, key: &str) -> bool {
+        // "ipc:<path>" names a path: it is listened on iff the path exists and the socket it
+        // points to is still a listener
+        if let Some(p) = key.strip_prefix("ipc:") {
+            return match self.files.get(Path::new(p)) {
+                Some(ino) => self.listeners.contains_key(&format!("ipc#{ino}")),
+                None => false,
+            };
+        }
         self.listeners.contains_key(key)
+    }
+    pub fn file_exists(&self, p: &Path) -> bool {
+        self.files.contains_key(p)
     }
     pub fn listener_keys(&self) -> Vec<String> {
         self.listeners.keys().cloned().collect()
@@ -1077,11 +1093,11 @@ impl UnixStream {
         Self::connect_opts(p, true)
     }
     fn connect_opts(p: &Path, raw: bool) -> io::Result<SimStream> {
-        let key = ipc_key(p);
-        let exists = rt().net.borrow().files.contains(p);
-        if !exists {
+        let ino = rt().net.borrow().files.get(p).copied();
+        let Some(ino) = ino else {
             return Err(io::ErrorKind::NotFound.into());
-        }
+        };
+        let key = format!("ipc#{ino}");
         let pb = p.to_path_buf();
         do_connect(|net| net.listeners.get(&key).map(|l| (key.clone(), l.clone())), key.clone(), io::ErrorKind::ConnectionRefused, |_| (StreamAddr::Unix(None), StreamAddr::Unix(Some(pb))), raw)
     }
@@ -1116,12 +1132,19 @@ impl UnixListener {
         {
             let rt = rt();
             let mut net = rt.net.borrow_mut();
-            if net.files.contains(p) {
+            if net.files.contains_key(p) {
                 return Err(io::ErrorKind::AddrInUse.into());
             }
-            net.files.insert(p.to_path_buf());
         }
-        let key = ipc_key(p);
+        let ino = {
+            let rt = rt();
+            let mut net = rt.net.borrow_mut();
+            let ino = net.next_inode;
+            net.next_inode += 1;
+            net.files.insert(p.to_path_buf(), ino);
+            ino
+        };
+        let key = format!("ipc#{ino}");
         let st = bind_key(key.clone())?;
         next_seq();
         Ok(UnixListener { key, path: p.to_path_buf(), st })
@@ -1152,7 +1175,7 @@ pub async fn remove_file(p: &Path) -> io::Result<()> {
         count("fault_unlink_error");
         return Err(io::Error::new(io::ErrorKind::PermissionDenied, "sim: unlink failed"));
     }
-    if net.files.remove(p) {
+    if net.files.remove(p).is_some() {
         Ok(())
     } else {
         Err(io::ErrorKind::NotFound.into())
